@@ -765,6 +765,24 @@ fn replay_est(tlc_out: &str, report: &str, ndjson: &str, dir: &Path) {
     let mut rep = Report::new("setup-est");
     let rt = tokio::runtime::Builder::new_multi_thread().worker_threads(8).enable_all().build().unwrap();
     let par: usize = std::env::var("SETUP_PAR").ok().and_then(|x| x.parse().ok()).unwrap_or(16);
+    // Process-wide state (a cached connector, a lazily initialised trust store) would make the outcome depend on which TLS
+    // connection a process opens FIRST. SETUP_WARMUP=noverify|verify opens one honest connection of that kind before
+    // anything else; the check runs the whole script set once with each, in separate processes.
+    if let Ok(w) = std::env::var("SETUP_WARMUP") {
+        let want_verify = w == "verify";
+        let pick = vecs.iter().find(|v| {
+            s(&v["cfg"], "mode") == "ldaps" && s(&v["cfg"], "connector") == "default" && v["cfg"]["verify"].as_bool() == Some(want_verify)
+                && s(&v["script"], "inj") == "none" && s(&v["script"], "hs") == "untrusted" && s(&v["cfg"], "timeout") == "none"
+        });
+        if let Some(v) = pick.cloned() {
+            let verdict: Vec<String> = v["verdict"].as_array().map(|a| a.iter().map(|x| x.as_str().unwrap_or("").to_string()).collect()).unwrap_or_default();
+            let tls2 = tls.clone();
+            rt.block_on(async move {
+                let _ = run_script(v["cfg"].clone(), v["script"].clone(), verdict, tls2).await;
+            });
+            rep.count(&format!("warmup_{}", w));
+        }
+    }
     let results = rt.block_on(async {
         let sem = Arc::new(tokio::sync::Semaphore::new(par));
         let mut hs = vec![];
